@@ -300,8 +300,10 @@ func (vt *v2T) scenC05() {
 // ---------------------------------------------------------------------------------------------
 // C06
 var v2NoticeTemplates = []string{"Copyright 2020 Jane Doe", "Copyright (c) 2019 Foo Inc. All rights reserved.", "// Copyright 2007, 2008 The Authors",
-	"2020-01-02", "2019-jan-07"}
-var v2Markers = []string{"1. ", "iv. ", "3.1. ", "12. "}
+	"2020-01-02", "2019-jan-07",
+	// a notice is a notice however many holders it lists (far more than thirty words on the line)
+	"Copyright (c) 1998-2020 Ann Archer, Bob Baker, Cy Cooper, Di Draper, Ed Elder, Flo Fisher, Gus Gardner, Hal Hunter, Ida Iron, Jo Joiner, Kit Knight, Lou Lister, Max Miller, Nan Nailor, Oz Ostler, Pat Porter, Quin Quarry, Ray Reeve, Sam Sawyer, Tom Turner and others"}
+var v2Markers = []string{"1. ", "iv. ", "3.1. ", "12. ", "100. ", "2.105. ", "99: "}
 
 func v2HeaderLike(w string) bool { return header(strings.ToLower(w)) }
 
@@ -584,7 +586,7 @@ func (vt *v2T) scenC11() {
 						alignclass = "token-ends-in-hyphen"
 					} else if w == "copyright" && firstOnLine {
 						for _, m := range tn.Matches {
-							if m.StartLine == td.Tokens[k].Line {
+							if m.StartLine == int(td.Tokens[k].Line) {
 								alignclass = "cleaned-line-is-notice"
 							}
 						}
